@@ -381,6 +381,8 @@ func propC15Options(c *Ctx, bp *bitprov) {
 	// parsers accept each (kind, size) with the same size
 	reKind := regexp.MustCompile(`^\(\$0\[(phi\{.*\}|loop)\] == (\d+)\)$`)
 	reLen := regexp.MustCompile(`^\(\$0\[\(1 \+ (phi\{.*\}|loop)\)\] == (\d+)\)$`)
+	// the option is rejected as truncated exactly when it does not fit: continue on !(len < i+L)
+	reRoom := regexp.MustCompile(`^!\(builtin:len\(\$0\) < \((\d+) \+ (phi\{.*\}|loop)\)\)$`)
 	for _, pn := range []string{"header.ParseSynOptions", "header.ParseTCPOptions"} {
 		fn := c.Fn(b2, pn)
 		if fn == nil {
@@ -388,6 +390,7 @@ func propC15Options(c *Ctx, bp *bitprov) {
 		}
 		gi := guardIndex(fn)
 		accepts := map[int]int{}
+		room := map[int]int{}
 		for _, e := range CondEdges(fn) {
 			m := reLen.FindStringSubmatch(e.Atom)
 			if m == nil || e.Succ != 0 {
@@ -400,6 +403,14 @@ func propC15Options(c *Ctx, bp *bitprov) {
 					var k int
 					fmt.Sscanf(km[2], "%d", &k)
 					accepts[k] = l
+					room[k] = -1
+					for _, g2 := range gi[e.From.Index] {
+						if rm := reRoom.FindStringSubmatch(g2); rm != nil {
+							var n int
+							fmt.Sscanf(rm[1], "%d", &n)
+							room[k] = n
+						}
+					}
 				}
 			}
 		}
@@ -412,6 +423,7 @@ func propC15Options(c *Ctx, bp *bitprov) {
 			if pn == "header.ParseTCPOptions" && k != 8 {
 				continue // only the timestamp option is valid on non-SYN segments
 			}
+			c.Check(room[k] == produced[k], b2, pn+"/room-test-tight:"+fmt.Sprint(k), c.P.Pos(fn.Pos()), fmt.Sprintf("kind %d rejected as truncated exactly when i+%d > len", k, produced[k]), fmt.Sprintf("kind %d (length %d): the truncation test is not the tight i+%d > len (found bound %d; -1/0 = not of that form): an option that exactly fills the block is dropped, or a short one is read past the end", k, produced[k], produced[k], room[k]))
 			c.Check(accepts[k] == produced[k], b2, pn+"/accepts-kind:"+fmt.Sprint(k), c.P.Pos(fn.Pos()), fmt.Sprintf("kind %d parsed with length %d", k, produced[k]), fmt.Sprintf("encoder produces kind %d with length %d, parser expects length %d", k, produced[k], accepts[k]))
 		}
 	}
